@@ -3,6 +3,7 @@ import Zrnt.Util.C19Driver
 import Zrnt.Config.C14Driver
 import Zrnt.Fault.Driver
 import Zrnt.Beacon.C02Driver
+import Zrnt.Beacon.BlockDriver
 import Zrnt.Gossip.Driver
 import Zrnt.SSZ.Driver
 import Zrnt.Shuffle.Driver
@@ -16,6 +17,7 @@ def modes : List Mode := [
   Zrnt.Config.c14Mode,
   Zrnt.Fault.c18Mode,
   Zrnt.Beacon.c02Mode,
+  Zrnt.Beacon.Block.c01Mode, Zrnt.Beacon.Block.c03Mode, Zrnt.Beacon.Block.blockWhyMode,
   Zrnt.Gossip.Driver.c12Mode,
   Zrnt.SSZ.Driver.sszMode,
   Zrnt.SSZ.Driver.sszStateMode,
